@@ -63,9 +63,9 @@ func zzPair(nmax int) {
 //zz:workers=4
 func ZZ_C29_pair() { zzPair(40) }
 
-// ZZ_C29_pair_full: validator counts up to 1100.
-//zz:tier=thorough workers=16
-func ZZ_C29_pair_full() { zzPair(1100) }
+// ZZ_C29_pair_full: validator counts up to 1023 (the full protocol's validator count).
+//zz:tier=thorough workers=16 conccap=1024 paths=200000
+func ZZ_C29_pair_full() { zzPair(1023) }
 
 // ZZ_C29_list: the neighbour list of every index equals {i | neighbour(index, i)} in ascending
 // order, followed by the same index of the previous and next epoch where it exists.
